@@ -19,6 +19,7 @@ import typing_extensions
 
 from mashumaro.config import ADD_DIALECT_SUPPORT
 from mashumaro.core.const import PY_311_MIN
+from mashumaro.core.meta import _verif
 from mashumaro.core.meta.code.lines import CodeLines
 from mashumaro.core.meta.helpers import (
     get_args,
@@ -389,6 +390,13 @@ def pack_union(
         print(lines.as_text())
 
     exec(lines.as_text(), spec.builder.globals, spec.builder.__dict__)
+    if _verif.ENABLED:
+        _verif.emit(
+            "compile",
+            cls=spec.builder.cls,
+            code=lines.as_text(),
+            globals=spec.builder.globals,
+        )
 
     method_args = ", ".join(
         filter(None, (spec.expression, spec.builder.get_pack_method_flags()))
@@ -457,6 +465,13 @@ def pack_literal(spec: ValueSpec) -> Expression:
         print(f"{type_name(spec.builder.cls)}:")
         print(lines.as_text())
     exec(lines.as_text(), spec.builder.globals, spec.builder.__dict__)
+    if _verif.ENABLED:
+        _verif.emit(
+            "compile",
+            cls=spec.builder.cls,
+            code=lines.as_text(),
+            globals=spec.builder.globals,
+        )
     method_args = ", ".join(
         filter(None, (spec.expression, spec.builder.get_pack_method_flags()))
     )
@@ -771,6 +786,13 @@ def pack_typed_dict(spec: ValueSpec) -> Expression:
         print(f"{type_name(spec.builder.cls)}:")
         print(lines.as_text())
     exec(lines.as_text(), spec.builder.globals, spec.builder.__dict__)
+    if _verif.ENABLED:
+        _verif.emit(
+            "compile",
+            cls=spec.builder.cls,
+            code=lines.as_text(),
+            globals=spec.builder.globals,
+        )
     method_args = ", ".join(
         filter(None, (spec.expression, spec.builder.get_pack_method_flags()))
     )
